@@ -75,3 +75,113 @@ func tail(s string, n int) string {
 	}
 	return s
 }
+
+// ---------------------------------------------------------------------------------------------------------
+// Guarded parts: a check whose subject may take the whole process down (a parameter-sized allocation: "fatal
+// error: out of memory" cannot be recovered) runs in a child process under an address-space limit. When the
+// child dies, the part is run again with a single worker and a marker file that names what is being executed;
+// the marker left behind by two consecutive crashing runs is the violation.
+
+// AbortMark records what the process is about to execute (no-op unless the parent asked for markers).
+func AbortMark(sig, detail string, path []string) {
+	f := os.Getenv("VERIF_ABORT_MARKER")
+	if f == "" {
+		return
+	}
+	b, _ := json.Marshal(map[string]interface{}{"sig": sig, "detail": detail, "path": path})
+	_ = os.WriteFile(f, b, 0o644)
+}
+
+type abortMark struct {
+	Sig    string   `json:"sig"`
+	Detail string   `json:"detail"`
+	Path   []string `json:"path"`
+}
+
+const childMemLimitMB = 12288
+
+func runGuardedChild(property, name, tier string, workers int, marker string) (*WireReport, string) {
+	exe, err := os.Executable()
+	if err != nil {
+		return nil, err.Error()
+	}
+	cmd := exec.Command(exe, "part", property, name)
+	cmd.Env = append(os.Environ(), "VERIF_TIER="+tier, fmt.Sprintf("VERIF_MEM_LIMIT_MB=%d", childMemLimitMB))
+	if workers > 0 {
+		cmd.Env = append(cmd.Env, fmt.Sprintf("VERIF_WORKERS=%d", workers))
+	}
+	if marker != "" {
+		cmd.Env = append(cmd.Env, "VERIF_ABORT_MARKER="+marker)
+	}
+	var out, errb bytes.Buffer
+	cmd.Stdout, cmd.Stderr = &out, &errb
+	rerr := cmd.Run()
+	var w WireReport
+	lines := bytes.Split(bytes.TrimSpace(out.Bytes()), []byte("\n"))
+	if rerr == nil && json.Unmarshal(lines[len(lines)-1], &w) == nil {
+		return &w, ""
+	}
+	msg := "no report"
+	if rerr != nil {
+		msg = rerr.Error()
+	}
+	first := errb.String()
+	if i := bytes.IndexByte(errb.Bytes(), '\n'); i > 0 {
+		first = first[:i]
+	}
+	return nil, msg + ": " + first
+}
+
+// GuardedSubprocessPart runs the named inner part in a child process under an address-space limit.
+func GuardedSubprocessPart(property, name string) Part {
+	return Part{Name: name, Parallel: true, Run: func(tier string, known []KnownFinding, deadline time.Time) PartReport {
+		w, why := runGuardedChild(property, name, tier, 0, "")
+		if w != nil {
+			rep := w.Report
+			rep.Violations, rep.KnownSeen = w.Violations, w.KnownSeen
+			return rep
+		}
+		// the child died: find out on what, with one worker and a marker, twice
+		var marks []abortMark
+		for i := 0; i < 2; i++ {
+			mf, err := os.CreateTemp("", "verif-abort-*")
+			if err != nil {
+				return PartReport{Name: name, Internal: err.Error()}
+			}
+			mf.Close()
+			defer os.Remove(mf.Name())
+			w2, why2 := runGuardedChild(property, name, tier, 1, mf.Name())
+			if w2 != nil {
+				return PartReport{Name: name, Internal: "child process died (" + why + ") but a single-worker run of the same part completed: not reproducible"}
+			}
+			var m abortMark
+			b, _ := os.ReadFile(mf.Name())
+			if json.Unmarshal(b, &m) != nil || m.Sig == "" {
+				return PartReport{Name: name, Internal: "child process died outside any marked step: " + why2}
+			}
+			m.Detail += " — the process ended with: " + why2
+			marks = append(marks, m)
+		}
+		if marks[0].Sig != marks[1].Sig {
+			return PartReport{Name: name, Internal: fmt.Sprintf("child process died at different steps in two runs: %s / %s", marks[0].Sig, marks[1].Sig)}
+		}
+		v := Violation{Finding: Finding{Sig: marks[0].Sig, Detail: marks[0].Detail}, Path: marks[0].Path, PreConfirmed: true}
+		rep := PartReport{Name: name, Exhaustive: false, Rule: "exploration ended by the death of the process"}
+		if MatchKnown(known, v.Sig) != nil {
+			rep.KnownSeen = map[string]Violation{v.Sig: v}
+		} else {
+			rep.Violations = []Violation{v}
+		}
+		return rep
+	}, Replay: func(path []string) ([]Finding, error) {
+		r := GuardedSubprocessPart(property, name).Run(Tier(), nil, time.Now().Add(10*time.Minute))
+		var fs []Finding
+		for _, v := range r.Violations {
+			fs = append(fs, v.Finding)
+		}
+		if r.Internal != "" {
+			return nil, fmt.Errorf("%s", r.Internal)
+		}
+		return fs, nil
+	}}
+}
